@@ -14,7 +14,7 @@
        resolution (Props/C02.v), control flow and scoping (Props/C08.v), modifiers (Props/C06.v),
        expression values (Props/C07.v) and external gates (Props/C18.v). *)
 From Coq Require Import List Bool String.
-From Verif Require Import Aexp BGate PyVal Ast State GatesGen GateLib Unroll Spec ExternalProofs Process FixProofs SpecFlat.
+From Verif Require Import Aexp BGate PyVal Ast State GatesGen GateLib Unroll Spec ExternalProofs Process Depth DepthModel FixProofs SpecFlat LoopProofs BroadcastProofs GateDefProofs.
 Import ListNotations.
 
 Theorem C01_lowering_preserves_process
@@ -110,3 +110,51 @@ Theorem C01_model_and_reference_semantics_agree_on_flat_programs strict p o :
   exists tr, spec_run strict false [] p = Ok tr /\ lower tr = Ok (o_stmts o).
 Proof. exact (model_agrees_with_reference_semantics_on_flat_programs strict p o). Qed.
 Print Assumptions C01_model_and_reference_semantics_agree_on_flat_programs.
+
+(* (4) INLINING OF GATE DEFINITIONS, as a theorem about whole programs (Lang/GateDefProofs.v).  `gexpand env0 [] p = Some (q, evs)`
+   is a computable judgement on programs whose top level holds includes, register declarations, GATE DEFINITIONS
+       gate g(p1, ...) a, b, ... { library gates on the formal qubits, each parameter a literal or a formal }
+   under names that are neither defined already nor names of the basis gates, CALLS  g(literals) r[i], r[j], ...;  of defined
+   gates on pairwise distinct bits inside their registers, and everything Props/C02.v and Props/C08.v admit (flat operations,
+   loops, whole-register operations).  q is the program without the definitions and with every call replaced by the body
+   of its definition, formal qubits replaced by the actual bits and formal parameters by the actual values, in order.
+   For EVERY such program -- any number of definitions, calls and body statements -- unroll() emits exactly q, q is a
+   well-formed flat program (accepted again and a fixpoint of unroll, Props/C03.v), the counts are q's register sizes and the
+   depth counters the recurrence over the events of q's operations. *)
+Theorem C01_gate_calls_are_replaced_by_instantiated_bodies fuel p q evs :
+  gexpand env0 [] p = Some (q, evs) -> (ldepth p + 1 < fuel)%nat ->
+  exists o, run_visit false false [] fuel p = Ok o /\ o_stmts o = q /\ wf_flat env0 q = true /\
+            num_qubits (o_state o) = total_qubits q /\ num_clbits (o_state o) = total_clbits q /\
+            forall r, dof (o_state o) r = depth_after rsrc_eqb evs r.
+Proof. exact (programs_with_gate_definitions_unroll_to_their_expansion fuel p q evs). Qed.
+Print Assumptions C01_gate_calls_are_replaced_by_instantiated_bodies.
+
+(* one call, in any state that knows the definition and is not expanding the gate already *)
+Theorem C01_one_gate_call check_only f env s name gd vs bs out :
+  Regs env s -> sget name (gates s) = Some gd -> smem name (gstack s) = false ->
+  List.length vs = List.length (g_params gd) -> List.length bs = List.length (g_qubits gd) ->
+  forallb (in_reg (e_q env)) bs = true -> distinctb [] bs = true ->
+  call_out env gd name vs bs = Some out ->
+  exists s', visit_stmt check_only [] (S (S f)) (SGate [] name (map ELit vs) (map qarg_of bs)) s
+             = Ok ((if check_only then [] else out), s') /\ DE s s' /\ Dstep s s' (evs_of out).
+Proof. exact (custom_call_fix check_only f env s name gd vs bs out). Qed.
+Print Assumptions C01_one_gate_call.
+
+From Coq Require Import ZArith.
+Local Open Scope Z_scope.
+Example C01_gate_definition_example :
+  let q k := QIdx "q" [IdxList [IExpr (ELit (VInt k))]] in
+  let decls := [SInclude "stdgates.inc"; SQubitDecl "q" (Some (ELit (VInt 3)))] in
+  let def := SGateDef "ent" ["t"] ["a"; "b"] [SGate [] "h" [] [QId "a"]; SGate [] "rx" [EId "t"] [QId "b"]; SGate [] "cx" [] [QId "a"; QId "b"]] in
+  let p := decls ++ [def; SGate [] "ent" [ELit (VInt 7)] [q 0; q 2]; SGate [] "h" [] [QId "q"]; SGate [] "ent" [ELit (VInt 3)] [q 2; q 1]] in
+  option_map fst (gexpand env0 [] p) =
+    Some (decls ++ [SGate [] "h" [] [q 0]; SGate [] "rx" [ELit (VInt 7)] [q 2]; SGate [] "cx" [] [q 0; q 2];
+                    SGate [] "h" [] [q 0]; SGate [] "h" [] [q 1]; SGate [] "h" [] [q 2];
+                    SGate [] "h" [] [q 2]; SGate [] "rx" [ELit (VInt 3)] [q 1]; SGate [] "cx" [] [q 2; q 1]]) /\
+  match unroll_v false [] p, gexpand env0 [] p with Ok o, Some (e, _) => list_eqb stmt_eqb (o_stmts o) e | _, _ => false end = true /\
+  (* outside the judgement: a call before the definition, a repeated actual qubit, a second definition of the name, a basis-gate name *)
+  gexpand env0 [] (decls ++ [SGate [] "ent" [ELit (VInt 7)] [q 0; q 2]; def]) = None /\
+  gexpand env0 [] (decls ++ [def; SGate [] "ent" [ELit (VInt 7)] [q 1; q 1]]) = None /\
+  gexpand env0 [] (decls ++ [def; def]) = None /\
+  gexpand env0 [] (decls ++ [SGateDef "h" [] ["a"] [SGate [] "x" [] [QId "a"]]]) = None.
+Proof. vm_compute. repeat split; reflexivity. Qed.
